@@ -456,47 +456,6 @@ def kappa_normalisation(rep, F, tag, rid):
             R.check(want in recips and other not in recips, 'factor|%d%s' % (val['arg3'], tag),
                     'with is_infeasible=%d the normalisation uses %s, expected %s' % (val['arg3'], recips, want), f.loc())
         R.check(seen == {0, 1}, 'both-branches' + tag, 'unscale lost a branch')
-        # the factor variable: defined only by those two reciprocals
-        sc = calls_named(f, 'scale')
-        R.check(len(sc) == 3, 'three-scales' + tag, 'unscale applies %d vector scalings, expected 3 (x, z, s)' % len(sc), f.loc())
-        facs = set()
-        tgts = set()
-        for c in sc:
-            a = [f.sym_operand(x) for x in c.args]
-            tgt = canon(a[0])
-            fac = canon(a[1])
-            tgts.add(tgt.split('(')[1].split(',')[0] if tgt.startswith('hadamard(') else tgt)
-            facs.add(fac)
-        R.check(tgts == {'self.x', 'self.z', 'self.s'}, 'scale-targets' + tag, 'scaled vectors are %s' % sorted(tgts), f.loc())
-        base = [x for x in facs if x.startswith('var:')]
-        R.check(len(base) == 1 and all(b == base[0] or b in ('mul(%s, recip(arg2.equilibration.c))' % base[0],) for b in facs),
-                'common-factor' + tag, 'x, s, z are not scaled by one common normalisation factor: %s' % sorted(facs), f.loc())
-        if base:
-            var = base[0][4:]
-            for l in f.local_by_name(var):
-                for d in f.defs.get(l, []):
-                    if d[0] == 'c':
-                        v = canon(('call', f.call_at[d[1]].callee.target_key, tuple(f.sym_operand(a) for a in f.call_at[d[1]].args), d[1]))
-                    else:
-                        v = canon(f.sym_rvalue(f.blocks[d[1]]['s'][d[2]]['rv']))
-                    R.check(v in ('recip(self.κ)', 'recip(self.τ)'), 'factor-def|%s%s' % (v, tag),
-                            'normalisation factor assigned from %s' % v, f.loc())
-        st = {}
-        for val, ret, ev, tr in leaves:
-            for e in ev:
-                if e[0] == 'store':
-                    st.setdefault(e[1], set()).add(e[2])
-        allcalls = set()
-        for val, ret, ev, tr in leaves:
-            for e in ev:
-                if e[0] == 'call':
-                    allcalls.add(e[2])
-        for fld in ('self.τ', 'self.κ'):
-            ok = bool(base) and (st.get(fld) == {'mul(%s, %s)' % (fld, base[0])} or
-                                 'mul_assign(%s, %s)' % (fld, base[0]) in allcalls)
-            R.check(ok, 'scalar|%s%s' % (fld, tag),
-                    '%s is not multiplied by the common normalisation factor (stores %s)' % (fld, st.get(fld)), f.loc())
-
     R.guard(body)
 
 
